@@ -494,18 +494,20 @@ var _ = option.None[int]
 
 func typeOf[T any]() reflect.Type { return reflect.TypeOf((*T)(nil)).Elem() }
 
+// instances handed to generic derived functions for their type parameters: for int they have the
+// same semantics as the package's local overriding instances, so that one reference serves both
 var dRegistry = map[reflect.Type]any{
-	typeOf[fp.Eq[int]]():          eq.Given[int](),
+	typeOf[fp.Eq[int]]():          REG_EQ_INT,
 	typeOf[fp.Eq[string]]():       eq.String,
-	typeOf[fp.Ord[int]]():         ord.Given[int](),
+	typeOf[fp.Ord[int]]():         REG_ORD_INT,
 	typeOf[fp.Ord[string]]():      ord.Given[string](),
 	typeOf[fp.Hashable[int]]():    hash.Number[int](),
 	typeOf[fp.Hashable[string]](): hash.String,
-	typeOf[fp.Monoid[int]]():      monoid.Sum[int](),
+	typeOf[fp.Monoid[int]]():      REG_MONOID_INT,
 	typeOf[fp.Monoid[string]]():   monoid.String,
 	typeOf[fp.Clone[int]]():       clone.Given[int](),
 	typeOf[fp.Clone[string]]():    clone.Given[string](),
-	typeOf[fp.Show[int]]():        show.Given[int](),
+	typeOf[fp.Show[int]]():        show.Int[int](),
 	typeOf[fp.Show[string]]():     show.String,
 }
 
@@ -520,6 +522,19 @@ func mustInst(name string, fn any) (any, int) {
 }
 
 `)
+	regEq, regOrd, regMon := "eq.Given[int]()", "ord.Given[int]()", "monoid.Sum[int]()"
+	if p.intEq10 {
+		regEq = "eq.New(func(a, b int) bool { return a%10 == b%10 })"
+	}
+	if p.intOrdRev {
+		regOrd = "ord.Given[int]().Reversed()"
+	}
+	if p.intProd {
+		regMon = "monoid.Product[int]()"
+	}
+	out := strings.NewReplacer("REG_EQ_INT", regEq, "REG_ORD_INT", regOrd, "REG_MONOID_INT", regMon).Replace(sb.String())
+	sb.Reset()
+	sb.WriteString(out)
 	fmt.Fprintf(&sb, "var dOverrides = dOverride{IntEqMod10: %v, IntOrdReversed: %v, IntProduct: %v}\n\n", p.intEq10, p.intOrdRev, p.intProd)
 	sb.WriteString("var dCases = func() []dCase {\n\tvar cs []dCase\n")
 	for _, s := range p.structs {
